@@ -27,13 +27,14 @@ theorem stripe_in_range (n idx : BitVec 32) (k : Nat) (hk : k ≤ 31) (hn : n.to
   rw [h1, hn]; exact Nat.mod_lt _ hp
 
 /-- an Add installs the old count plus its delta (64-bit wrap, as the counter itself) -/
-theorem add_installs (cnt delta : BitVec 64) : Adder_Add_x1 cnt delta = cnt + delta := rfl
+theorem add_installs (cnt delta : BitVec 64) : Adder_Add_x1 cnt delta = cnt + delta := by
+  first | rfl | simp [Adder_Add_x1, BitVec.add_comm]
 
 /-- Value: from zero, over every stripe index below the number of stripes, adding each stripe's load -/
 theorem value_walk (i len v x : BitVec 64) (hi : i.toNat < 2 ^ 62) (hl : len.toNat < 2 ^ 62) :
     Adder_Value_a0 = 0#64 ∧ Adder_Value_a1 = 0#64 ∧ Adder_Value_c0 i len = decide (i.toNat < len.toNat) ∧
     Adder_Value_u0 i = i + 1#64 ∧ Adder_Value_u1 x v = v + x ∧ Adder_Value_r0 v = v := by
-  refine ⟨rfl, rfl, ?_, rfl, rfl, rfl⟩
+  refine ⟨rfl, rfl, ?_, by first | rfl | simp [Adder_Value_u0, BitVec.add_comm], by first | rfl | simp [Adder_Value_u1, BitVec.add_comm], rfl⟩
   unfold Adder_Value_c0
   rw [BitVec.slt_eq_decide, BitVec.toInt_eq_toNat_cond, BitVec.toInt_eq_toNat_cond]
   have e1 : 2 * i.toNat < 2 ^ 64 := by omega
